@@ -173,6 +173,10 @@ pub fn run(p: &Prob, c: &Cfg) -> Run {
 }
 
 pub fn run_with(p: &Prob, c: &Cfg, answer: Option<AnswerFn<'_>>, mass: Option<&dyn Fn(&mut Matrix)>) -> Run {
+    run_with2(p, c, answer, None, mass)
+}
+
+pub fn run_with2(p: &Prob, c: &Cfg, answer: Option<AnswerFn<'_>>, answer_in_jac: Option<AnswerFn<'_>>, mass: Option<&dyn Fn(&mut Matrix)>) -> Run {
     let f = p.rhs();
     let jacf = |t: f64, y: &[f64], j: &mut Matrix| p.write_jac(t, y, j);
     let mut probe = Probe::new(&f);
@@ -182,6 +186,7 @@ pub fn run_with(p: &Prob, c: &Cfg, answer: Option<AnswerFn<'_>>, mass: Option<&d
     probe.massf = mass;
     probe.events = c.events.clone();
     probe.answer = answer;
+    probe.answer_in_jac = answer_in_jac;
     probe.budget = c.budget;
     probe.keep_log = c.keep_log;
     let opts = c.options();
